@@ -6,7 +6,7 @@ Model-side driver of the `trace` line protocol (C14, C16).  Reads cases on stdin
                                                                  cmds: p | g | f | s<c> | y<k>   (g = gated probe = p for the monitor)
   try <k> owner=<p>:<i> body=<b> succ=<id|-> fail=<id|-> fin=<id|->
   top <ids|->
-  <seq> sub|acc|rej <t> | cmd <t> <i> | ret <t> <i> ok|err | done <t> ok|fail | mwait ok|err|hang
+  <seq> sub|acc|rej <t> | fetch <t> <i> | cmd <t> <i> | ret <t> <i> ok|err | done <t> ok|fail | mwait ok|err|hang
         | fin <t> ok|fail|hang | root ok|err | panic             (the implementation's events, sequence numbered)
   sim <seed> <maxsteps>                                          (instead of events: run the Lean MODEL under a pseudo-random schedule)
   end
@@ -83,6 +83,7 @@ def parseEv (ws : List String) : Option Ev :=
   | ["acc", t] => t.toNat?.map .acc
   | ["rej", t] => t.toNat?.map .rej
   | ["cmd", t, i] => do some (.cmd (← t.toNat?) (← i.toNat?))
+  | ["fetch", t, i] => do some (.fetch (← t.toNat?) (← i.toNat?))
   | ["ret", t, i, f] => do some (.ret (← t.toNat?) (← i.toNat?) (← okFlag f))
   | ["done", t, f] => do some (.done (← t.toNat?) (← okFlag f))
   | ["mwait", f] => (okFlag f).map .mwait
@@ -91,7 +92,7 @@ def parseEv (ws : List String) : Option Ev :=
   | _ => none
 
 def evTask : Ev → Option Nat
-  | .sub t | .acc t | .rej t | .cmd t _ | .ret t _ _ | .done t _ | .fin t _ => some t
+  | .sub t | .acc t | .rej t | .cmd t _ | .fetch t _ | .ret t _ _ | .done t _ | .fin t _ => some t
   | _ => none
 
 /-! ### Diagnostics: which clause of `Ok` an event violates (unverified, only names the reason) -/
@@ -139,6 +140,10 @@ def why (g : Graph) (pre : List Ev) : Ev → String
     else if Ev.cmd t i ∈ pre then "command-repeated"
     else if hasDone pre t then "command-after-task-closed"
     else if i = 0 then whyStart g pre t else whyNext g pre t (i - 1)
+  | .fetch t i =>
+    if ¬ i < (g.body t).length then "command-index-out-of-range"
+    else if Ev.fetch t i ∈ pre then "command-read-twice"
+    else if i = 0 then whyStart g pre t else whyNext g pre t (i - 1)
   | .ret t i ok =>
     if Ev.cmd t i ∉ pre then "return-without-command"
     else if hasRet pre t i then "return-repeated"
@@ -155,14 +160,13 @@ def why (g : Graph) (pre : List Ev) : Ev → String
     else "failed-without-cause-in-its-context"
   | .mwait ok =>
     if ¬ (∀ t ∈ List.range g.n, acceptedEv g pre t → hasDone pre t) then "manager-wait-returned-before-all-finished"
-    else if ok then "manager-wait-ok-although-a-task-failed" else "manager-wait-error-without-cause"
+    else if ok then "manager-wait-ok-although-a-task-failed" else "manager-wait-error-although-no-task-failed"
   | .fin t ok =>
     if ¬ hasMwait pre then "report-before-manager-wait"
-    else if ¬ hasDone pre t then "table-contains-task-that-never-closed"
-    else if ok then "task-reports-ok-although-its-context-failed" else "task-reports-error-without-cause-in-its-context"
+    else if ok then "task-reports-ok-although-its-context-failed" else "task-reports-error-although-no-task-of-its-context-failed"
   | .root ok =>
     if ¬ hasMwait pre then "report-before-manager-wait"
-    else if ok then "root-ok-although-root-context-failed" else "root-error-without-cause-in-root-context"
+    else if ok then "root-ok-although-root-context-failed" else "root-error-although-no-task-of-the-root-context-failed"
 
 /-! ### Pseudo-random schedules for `sim` -/
 
